@@ -17,6 +17,7 @@ WellTyped(c) == \/ c.family \in {"text", "octet", "zip", "csv"}
                 \/ "wrap" \in DOMAIN c /\ Valid([BaseSchemaOf(c) EXCEPT !.required = <<>>], c.v, "plain")   \* (form / multipart: the value is not wrapped)
                 \/ c.schema \in {"S1", "S2", "S3"} /\ Valid([S2 EXCEPT !.required = <<>>], c.v, "plain")
                 \/ c.schema \in {"S4", "S4a", "S5", "S6", "SN", "S9"} /\ Valid(SchemaOf(c), c.v, "plain")
+                \/ c.schema = "S10" /\ Valid([S10 EXCEPT !.ps[4] = [type |-> "array", items |-> TStr]], c.v, "plain")   \* (every item text is of its type)
 
 Failed(line) ==
    LET c == line.c IN
